@@ -45,7 +45,7 @@ func writeManifest() {
 			Replay:     "bin/bwcheck replay {path}",
 			Engine:     "bwcheck",
 			Level: level{Category: "other",
-				Text:      "Static analysis: structural necessary conditions of the property are decided for all inputs/paths on /repo's current source (go/types + go/ssa + dominators/path-state dataflow + table comparison). " + p.Level + " The behaviour itself is not proved; the clauses not decided are listed in the evidence (not_decided) and DESIGN.md.",
+				Text:      "Static analysis: structural necessary conditions of the property are decided for all inputs/paths on /repo's current source (go/types + go/ssa + dominators/path-state dataflow + table comparison). " + p.Level + "; plus the necessary conditions added after each seeded round (rule list with statements and instance counts in the evidence file, catalogue in DESIGN.md §0.1). The behaviour itself is not proved; the clauses not decided are listed in the evidence (not_decided) and DESIGN.md.",
 				DesignRef: "DESIGN.md §4 " + id},
 			Note:      p.Note,
 			Technique: p.Technique,
